@@ -22,9 +22,11 @@ def scenarios(tier):
     cap = 1500 if tier == "quick" else 40000
     S = []
 
-    def add(name, kind, cfg, setup, clock, threads, bound):
+    def add(name, kind, cfg, setup, clock, threads, bound, thread_clocks=None):
         S.append({"name": name, "kind": kind, "cfg": cfg, "setup": setup, "clock": clock, "threads": threads, "bound": bound,
                   "max_schedules": cap})
+        if thread_clocks:
+            S[-1]["thread_clocks"] = thread_clocks
     add("two racing probes after the timeout", "breaker", BRK, OPENED, 10, [[["allow"]], [["allow"]]], None if tier != "quick" else 3)
     add("three racing probes after the timeout", "breaker", BRK, OPENED, 10, [[["allow"]], [["allow"]], [["allow"]]], b2)
     add("racing failures crossing the threshold", "breaker", dict(BRK, thr=2), [[0, ["failure", "TRANSIENT"]]], 1,
@@ -40,6 +42,13 @@ def scenarios(tier):
     add("closed: failure+allow vs allow+success", "breaker", dict(BRK, thr=2), [], 1,
         [[["failure", "TRANSIENT"], ["allow"]], [["allow"], ["success"]]], b2)
     add("open before the timeout: allow vs failure vs state", "breaker", BRK, OPENED, 3, [[["allow"]], [["failure", "TRANSIENT"]], [["state"]]], b2)
+    # threads whose clock readings differ (each thread reads the clock once per operation, before taking the lock)
+    add("open: a caller just before the timeout vs a probe just after it that succeeds", "breaker", BRK, OPENED, 4,
+        [[["allow"]], [["allow"], ["success"]]], b3, thread_clocks=[4, 5])
+    add("open: a caller just before the timeout vs a probe just after it that fails", "breaker", BRK, OPENED, 4,
+        [[["allow"], ["state"]], [["allow"], ["failure", "TRANSIENT"]]], b2, thread_clocks=[4, 5])
+    add("budget: a consumer just before the oldest grant ages out vs one exactly at the edge", "budget", {"max": 1, "win": 5},
+        [[0, ["consume"]]], 4, [[["consume"]], [["consume"], ["remaining"]]], b3, thread_clocks=[4, 5])
     add("budget with one token left: two consumers", "budget", {"max": 1, "win": 100}, [], 3, [[["consume"]], [["consume"]]], None if tier != "quick" else 3)
     add("budget: two consumers and a reader", "budget", {"max": 2, "win": 100}, [[0, ["consume"]]], 3,
         [[["consume"]], [["consume"]], [["remaining"]]], b2)
@@ -54,7 +63,8 @@ def run(chk):
     chk.assumptions += [
         "pre-emption granularity = source lines of circuit.py / budget.py (bytecode-level pre-emption within a line, the GIL and lock "
         "fairness are not modelled)",
-        "clock readings happen before the lock is taken; all threads of a scenario read the same clock value",
+        "clock readings happen before the lock is taken; the threads of a scenario read the same clock value, or (thread_clocks) each "
+        "thread its own constant value",
         "sequential behaviour of the classes is tied to the Coq models by C06 / C07 / C10",
     ]
     ok = chk.check_theorems()
